@@ -394,48 +394,7 @@ func C09(p *ir.Program, r *report.R) {
 	// ---- dirty reference counts ---------------------------------------------------------------
 	// journal.dirties[addr] counts the live entries of addr; Finalise/Copy/Commit visit exactly
 	// the addresses with a positive count, so revert must decrement and delete only at zero.
-	{
-		dv := p.Field("state", "journal.dirties")
-		allowedW := map[string]bool{"state.(*journal).append": true, "state.(*journal).revert": true, "state.(*journal).dirty": true, "state.newJournal": true}
-		nInc, nDec, nDel := 0, 0, 0
-		for _, st := range p.Stores(dv) {
-			fn := ir.FuncName(ir.EnclosingTop(st.Fn))
-			if strings.HasSuffix(p.Pos(st.Fn.Pos()), "_test.go") {
-				continue
-			}
-			if !allowedW[fn] {
-				r.Check("K3", "dirty-count/who-may-write/"+fn, p.InstrPos(st.Instr), false, "journal.dirties is maintained only by journal.append/revert/dirty")
-				continue
-			}
-			switch st.Kind {
-			case "mapupdate":
-				mu := st.Instr.(*ssa.MapUpdate)
-				k, v := ir.Render(mu.Key), ir.Render(mu.Value)
-				switch fn {
-				case "state.(*journal).append", "state.(*journal).dirty":
-					nInc++
-					r.Check("K2", "dirty-count/"+fn+"/increments-by-one", p.InstrPos(st.Instr), v == "(j.dirties["+k+"] + 1)", "dirties["+k+"] = "+v)
-				case "state.(*journal).revert":
-					nDec++
-					r.Check("K2", "dirty-count/"+fn+"/decrements-by-one", p.InstrPos(st.Instr), v == "(j.dirties["+k+"] - 1)" && strings.Contains(k, "journalEntry.dirtied(j.entries[φ:i])"), "dirties["+k+"] = "+v)
-				}
-			case "mapdelete":
-				nDel++
-				call := st.Instr.(*ssa.Call)
-				k := ir.Render(call.Call.Args[1])
-				okZ := ir.HasFact(ir.FactsAt(st.Instr), "eq(j.dirties["+k+"],0) || le(j.dirties["+k+"],0)")
-				// the zero test must see the decremented count: a decrement of the same key precedes the delete
-				okDec := false
-				for _, st2 := range p.Stores(dv) {
-					if st2.Fn == st.Fn && st2.Kind == "mapupdate" && ir.Render(st2.Instr.(*ssa.MapUpdate).Key) == k && ir.Precedes(st2.Instr, st.Instr) {
-						okDec = true
-					}
-				}
-				r.Check("K1", "dirty-count/"+fn+"/delete-only-at-zero", p.InstrPos(st.Instr), okZ && okDec, "delete(j.dirties, "+k+") only after the decrement and under count == 0")
-			}
-		}
-		r.Check("K2", "dirty-count/shape", p.Pos(dv.Pos()), nInc >= 2 && nDec == 1 && nDel == 1, fmt.Sprintf("append and dirty increment (%d), revert decrements once per entry (%d) and deletes at zero (%d)", nInc, nDec, nDel))
-	}
+	journalDirtyCounts(c)
 
 	// ---- storage values handed out by the state are never written in place ---------------------------
 	// GetState returns the cached slice itself (originStorage/dirtyStorage share it, Storage.Copy is
@@ -541,6 +500,75 @@ func C09(p *ir.Program, r *report.R) {
 		}
 		r.Stats["big.Int mutator calls in state"] = n
 		r.Check("K3", "no-in-place-balance-mutation", "-", len(bad) == 0, fmt.Sprintf("no big.Int mutator has a stored balance as its receiver (shared *big.Int values stay immutable): %v", bad))
+	}
+	// the mempool's check state is mutated by CheckState under LockState; a reader that copies or
+	// queries it must hold the same lock for the whole operation (a Copy() taken after UnlockState
+	// races with SubBalance/SetNonce: torn copy, or a concurrent map iteration and write)
+	{
+		fv := p.Field("app", "LinkApplication.checkTxState")
+		n := 0
+		for _, f := range p.Funcs {
+			if f.Pkg == nil || ir.RelPkg(f.Pkg.Pkg) != "app" || f.Blocks == nil || f.Parent() != nil || len(f.Params) == 0 || strings.HasSuffix(p.Pos(f.Pos()), "_test.go") {
+				continue
+			}
+			if f.Name() == "State" || strings.HasPrefix(f.Name(), "NewLinkApplication") {
+				continue // the TxCensor accessor (callers hold LockState, C15) and the constructor
+			}
+			// the state-lock wrapper's mutex field
+			mtxIdx := -1
+			var recv ssa.Value
+			ir.Instrs(f, func(in ssa.Instruction) {
+				if op, ok := lockOpOf(in); ok && strings.HasSuffix(op.Mtx, ".stateLock") {
+					mtxIdx, recv = op.Field, op.Owner
+				}
+			})
+			ir.Instrs(f, func(in ssa.Instruction) {
+				u, ok := in.(*ssa.UnOp)
+				if !ok {
+					return
+				}
+				fa, ok := u.X.(*ssa.FieldAddr)
+				if !ok || fieldVarOf(fa) != fv || u.Referrers() == nil {
+					return
+				}
+				for _, use := range *u.Referrers() {
+					call, isCall := use.(*ssa.Call)
+					if !isCall {
+						continue
+					}
+					n++
+					held := mtxIdx >= 0 && lockHeldAt(f, call, recv, mtxIdx, false)
+					r.Check("K10", "app.checkTxState/used-under-state-lock/"+ir.FuncName(f), p.InstrPos(call), held, "the check state is read while LockState is held (through the end of the operation): "+short(ir.RenderInstr(call), 80))
+				}
+			})
+		}
+		r.Check("K10", "app.checkTxState/uses", "-", n >= 4, fmt.Sprintf("%d operations on the loaded check state found in package app", n))
+	}
+
+	// a copy of the flat/trie wrapper copies the backing Merkle trie whenever there is one (trie storage
+	// mode), unconditionally: sharing it makes a write of one copy visible in the original and in siblings
+	{
+		ct := p.Func("state", "wrappedDB.CopyTrie")
+		n := 0
+		for _, call := range ir.Calls(ct, "state.Database.CopyTrie") {
+			n++
+			extra := []string{}
+			for _, fct := range ir.FactsAt(call.(ssa.Instruction)) {
+				if strings.HasSuffix(fct.Atom, ".isTrie") || strings.HasSuffix(fct.Atom, ".(*state.wrappedTrie)#1") {
+					continue
+				}
+				extra = append(extra, fct.Atom)
+			}
+			r.Check("K5", "state.(*wrappedDB).CopyTrie/backing-trie-copied-whenever-trie-mode", p.InstrPos(call.(ssa.Instruction)), len(extra) == 0, fmt.Sprintf("the copy of the backing trie depends on isTrie only; extra conditions %v", extra))
+		}
+		c.MustFind("K5", "state.(*wrappedDB).CopyTrie/copy", ct, n, "oldDB.CopyTrie call")
+		// and the literal does not fall back to the source's own trie
+		ir.Instrs(ct, func(in ssa.Instruction) {
+			if st, ok := in.(*ssa.Store); ok && strings.HasSuffix(ir.Render(st.Addr), ".oldTrie") {
+				v := ir.Render(st.Val)
+				r.Check("K5", "state.(*wrappedDB).CopyTrie/never-the-source-trie", p.InstrPos(in), !strings.Contains(v, "t.(*state.wrappedTrie)#0.oldTrie") || strings.Contains(v, "CopyTrie("), "the new wrapper never holds the source's backing trie object: "+short(v, 100))
+			}
+		})
 	}
 }
 
@@ -729,3 +757,49 @@ func c09DeepCopy(c C) {
 }
 
 var _ = report.Discharged
+
+// journalDirtyCounts: see the call in C09 (shared with C06: a reverted transfer whose account drops out of
+// the dirty set is not finalised and its balance change is lost from the state root).
+func journalDirtyCounts(c C) {
+	p, r := c.P, c.R
+	dv := p.Field("state", "journal.dirties")
+	allowedW := map[string]bool{"state.(*journal).append": true, "state.(*journal).revert": true, "state.(*journal).dirty": true, "state.newJournal": true}
+	nInc, nDec, nDel := 0, 0, 0
+	for _, st := range p.Stores(dv) {
+		fn := ir.FuncName(ir.EnclosingTop(st.Fn))
+		if strings.HasSuffix(p.Pos(st.Fn.Pos()), "_test.go") {
+			continue
+		}
+		if !allowedW[fn] {
+			r.Check("K3", "dirty-count/who-may-write/"+fn, p.InstrPos(st.Instr), false, "journal.dirties is maintained only by journal.append/revert/dirty")
+			continue
+		}
+		switch st.Kind {
+		case "mapupdate":
+			mu := st.Instr.(*ssa.MapUpdate)
+			k, v := ir.Render(mu.Key), ir.Render(mu.Value)
+			switch fn {
+			case "state.(*journal).append", "state.(*journal).dirty":
+				nInc++
+				r.Check("K2", "dirty-count/"+fn+"/increments-by-one", p.InstrPos(st.Instr), v == "(j.dirties["+k+"] + 1)", "dirties["+k+"] = "+v)
+			case "state.(*journal).revert":
+				nDec++
+				r.Check("K2", "dirty-count/"+fn+"/decrements-by-one", p.InstrPos(st.Instr), v == "(j.dirties["+k+"] - 1)" && strings.Contains(k, "journalEntry.dirtied(j.entries[φ:i])"), "dirties["+k+"] = "+v)
+			}
+		case "mapdelete":
+			nDel++
+			call := st.Instr.(*ssa.Call)
+			k := ir.Render(call.Call.Args[1])
+			okZ := ir.HasFact(ir.FactsAt(st.Instr), "eq(j.dirties["+k+"],0) || le(j.dirties["+k+"],0)")
+			// the zero test must see the decremented count: a decrement of the same key precedes the delete
+			okDec := false
+			for _, st2 := range p.Stores(dv) {
+				if st2.Fn == st.Fn && st2.Kind == "mapupdate" && ir.Render(st2.Instr.(*ssa.MapUpdate).Key) == k && ir.Precedes(st2.Instr, st.Instr) {
+					okDec = true
+				}
+			}
+			r.Check("K1", "dirty-count/"+fn+"/delete-only-at-zero", p.InstrPos(st.Instr), okZ && okDec, "delete(j.dirties, "+k+") only after the decrement and under count == 0")
+		}
+	}
+	r.Check("K2", "dirty-count/shape", p.Pos(dv.Pos()), nInc >= 2 && nDec == 1 && nDel == 1, fmt.Sprintf("append and dirty increment (%d), revert decrements once per entry (%d) and deletes at zero (%d)", nInc, nDec, nDel))
+}
